@@ -13,6 +13,12 @@ func (e eng) Generate(seed uint64, prop, tier string) any {
 	if prop == "C08" || (prop == "C17" || prop == "C06" || prop == "C05") && seed%7 == 0 {
 		return GenerateUDP(seed, tier)
 	}
+	switch prop {
+	case "C01", "C02", "C03", "C04", "C05", "C06", "C07":
+		if seed%6 == 1 {
+			return GenerateClient(seed, prop, tier)
+		}
+	}
 	if prop == "C18" {
 		if seed%4 == 3 {
 			return GenerateC18Random(seed, tier)
